@@ -471,7 +471,7 @@ def r10_4(ctx, prog, crate):
         ctx.check(ok, "R10.4", ["tally-of-current-thread", b.path, c.callee.rsplit("::", 1)[-1]],
                   "`%s` in `%s` is applied to a tally that does not come from the current thread's slot (%s)"
                   % (c.callee, b.path, sorted(s.label() for s in srcs)), c.line())
-    ctx.anchor("R10.4", "tally/clear call sites", n, 8)
+    ctx.anchor("R10.4", "tally/clear call sites", n, 4)
 
 
 def r10_5(ctx, prog, crate):
